@@ -103,9 +103,9 @@ def plans(tier):
         ("v10-loader", dict(ver="10", maxfree=2, kinds="CoreKinds"), 0, 0, "loader"),
         ("v12-byz-loader", dict(ver="12", maxfree=2, byz="Byz2", maxbad=1, kinds="FaultKinds"), 0, 0, "loader"),
         # longer histories on three servers, sampled
-        ("v10-sim", dict(ver="10", maxfree=4, n=3, mode="paths", kinds="CoreKinds", gap=True, late=True, ts="TS12", bob=3, strictban=False), 120, 40, ""),
-        ("v12-sim-byz", dict(ver="12", maxfree=4, n=3, byz="Byz3", maxbad=2, mode="paths", kinds="CoreKinds", gap=True), 120, 40, ""),
-        ("v1-sim", dict(ver="1", maxfree=4, n=3, mode="paths", kinds="CoreKinds", ts="TS12", bob=3, strictban=False), 80, 40, ""),
+        ("v10-sim", dict(ver="10", maxfree=4, n=3, mode="paths", kinds="CoreKinds", gap=True, late=True, ts="TS12", bob=3, strictban=False), 64, 40, ""),
+        ("v12-sim-byz", dict(ver="12", maxfree=4, n=3, byz="Byz3", maxbad=2, mode="paths", kinds="CoreKinds", gap=True), 64, 40, ""),
+        ("v1-sim", dict(ver="1", maxfree=4, n=3, mode="paths", kinds="CoreKinds", ts="TS12", bob=3, strictban=False), 48, 40, ""),
     ]
     return P
 
@@ -197,7 +197,7 @@ def trace(ctx, ver, byz, runs, loader=False):
                 % (ver, ", hs3 byzantine" if byz else "", rec.get("run", 0),
                    {k: rec[k] for k in ("a", "s", "u", "kind", "t", "lvl", "rule", "ts", "via", "x", "e", "prev", "auth") if k in rec},
                    rec.get("res")))
-        ctx.disagree("X06/trace/%s/%s/%s" % (rec.get("a"), rec.get("kind") or "-", kinds), what,
+        ctx.disagree("X06/%strace/%s/%s/%s" % ("loader/" if loader else "", rec.get("a"), rec.get("kind") or "-", kinds), what,
                      {"harness": "x06rec", "pkg": PKG, "args": args, "line": lineno, "record": rec, "count": 1})
 
     return ctx.validate_trace("Fed_trace", trace_cfg(ctx, ver, byz), path, on_reject, timeout=1500)
@@ -230,6 +230,9 @@ def run(ctx):
     ]
     quick = ctx.tier == "quick"
     ps = plans(ctx.tier)
+    only = os.environ.get("X06_ONLY")        # development aid: a comma separated subset of the plans
+    if only:
+        ps = [p for p in ps if p[0] in only.split(",")]
     d = ctx._spec_dir()
     ctx.harness_build(pkg=PKG)
     jobs = []
@@ -328,8 +331,8 @@ def run(ctx):
     else:
         lines = 0
         for ver in ("10", "12", "1", "6", "11"):
-            lines += trace(ctx, ver, False, 4)
-        lines += trace(ctx, "10", True, 4) + trace(ctx, "12", True, 3) + trace(ctx, "10", False, 3, loader=True)
+            lines += trace(ctx, ver, False, 3)
+        lines += trace(ctx, "10", True, 3) + trace(ctx, "12", True, 2) + trace(ctx, "10", False, 2, loader=True)
     ctx.notes["trace_lines_validated"] = lines
 
     ctx.exhaustive = True
